@@ -8,6 +8,7 @@
 //! `peek`  - non-blocking, non-scheduling reads used by the read-only accessors.
 //! `world` - per-execution state owned by the harness (event log, manual tick senders, seeds, choices).
 
+pub mod common;
 #[cfg(feature = "sched")]
 pub mod sched;
 #[cfg(feature = "sched")]
@@ -23,6 +24,9 @@ pub mod native;
 pub use native::sync;
 #[cfg(feature = "native")]
 pub use native::world;
+
+#[cfg(all(feature = "sched", feature = "native"))]
+compile_error!("features `sched` and `native` are mutually exclusive");
 
 pub mod hook {
     //! Event hooks called from the code under test (one added line each, see MANIFEST.hooks).
